@@ -5,6 +5,7 @@ CONSTANTS
   EmitSched = FALSE
   MaxAppRollback = 0
   MaxTamper = 0
+  InitialHeight = 1
   Weak_EndHeightBeforeSaveBlock = FALSE
   Weak_SaveStateBeforeAppCommit = FALSE
   Weak_NoABCIResponsesSaved = TRUE
@@ -15,6 +16,7 @@ CONSTANTS
   Weak_NoEndHeightRepair = FALSE
   Weak_HandshakeAcceptsAppAhead = FALSE
   Weak_EmptyStoreAcceptsAppAhead = FALSE
+  Weak_NoInitialHeightBase = FALSE
 INIT Init
 NEXT Next
 INVARIANTS NoStuck
